@@ -16,9 +16,10 @@
 //!
 //! In particular an empty (= unrestricted) child list / absent child bound under a
 //! restricted parent must be refused, because some request separates the two.
-use super::verif_c19_covers::sym_str;
-use super::verif_c19_scope::{auth_ctx, conditions, sym_list};
+#[path = "c19_common.rs"]
+mod common;
 use super::*;
+use common::{auth_ctx, conditions, sym_list, sym_str};
 use core::mem::ManuallyDrop;
 
 // ---------------------------------------------------------------------------
@@ -303,7 +304,7 @@ fn constraints(fields: Vec<String>, max_results: Option<u64>, authority: &str, c
 /// Export flag and result cap over their full domains (every bool, every u64,
 /// presence of each cap enumerated).
 #[kani::proof]
-#[kani::unwind(2)]
+#[kani::unwind(5)]
 fn c19_atten_export_and_max_results() {
     let (pe, ce): (bool, bool) = (kani::any(), kani::any());
     let (m, n): (u64, u64) = (kani::any(), kani::any());
